@@ -1,5 +1,6 @@
 import PhreeqcVerif.Model.Settings
 import PhreeqcVerif.Properties.C13
+import PhreeqcVerif.Model.Api
 /-!
 # C13 — setters and getters behave as a simple store; invalid ids and arguments change nothing
 -/
@@ -104,5 +105,346 @@ theorem getters_pure (i : Inst) :
     (∀ s, (i.call (.getSw s)).1 = i) ∧ (∀ n, (i.call (.getName n)).1 = i) ∧ (i.call .getCur).1 = i ∧
     (i.call .getSelFileOn).1 = i ∧ (i.call .getSelStrOn).1 = i ∧ (i.call .getSelName).1 = i := by
   simp [Inst.call]
+
+/-! ### Refinement: the settings model is a plain key → value store -/
+
+/-- the specification: one total value per key, no hidden structure -/
+structure AStore where
+  sw : Sw → Bool
+  name : Nm → String
+  cur : Int
+  selFile : Int → Bool
+  selStr : Int → Bool
+  selName : Int → String
+
+def upd {α} (f : Int → α) (k : Int) (v : α) : Int → α := fun j => if j = k then v else f j
+
+/-- abstraction function: what the store holds for every key -/
+def Inst.abs (i : Inst) : AStore :=
+  ⟨i.sw, i.name, i.cur, fun k => (i.selFileOn.lookup k).getD false, fun k => (i.selStrOn.lookup k).getD false,
+   fun k => (i.selFileName.lookup k).getD ""⟩
+
+/-- calls of the setter/getter/load interface (everything except the two `Run*` effects) -/
+def Call.isStore : Call → Bool
+  | .defSel _ _ => false
+  | .rerun => false
+  | _ => true
+
+/-- the specification of every store call on the plain store -/
+def specCall : Call → AStore → AStore × Res
+  | .setSw s v, a => ({ a with sw := fun t => if t = s then v else a.sw t }, .int 0)
+  | .getSw s, a => (a, .int (b2i (a.sw s)))
+  | .setName n (some s), a => (if s.isEmpty then a else { a with name := fun t => if t = n then s else a.name t }, .int 0)
+  | .setName _ none, a => (a, .int 0)
+  | .getName n, a => (a, .str (a.name n))
+  | .setCur n, a => if 0 ≤ n then ({ a with cur := n }, .int 0) else (a, .int (-3))
+  | .getCur, a => (a, .int a.cur)
+  | .setSelFileOn v, a => (if 0 ≤ a.cur then { a with selFile := upd a.selFile a.cur v } else a, .int 0)
+  | .getSelFileOn, a => (a, .int (b2i (a.selFile a.cur)))
+  | .setSelStrOn v, a => ({ a with selStr := upd a.selStr a.cur v }, .int 0)
+  | .getSelStrOn, a => (a, .int (b2i (a.selStr a.cur)))
+  | .setSelName (some s), a => (if s.isEmpty then a else { a with selName := upd a.selName a.cur s }, .int 0)
+  | .setSelName none, a => (a, .int 0)
+  | .getSelName, a => (a, .str (a.selName a.cur))
+  | .unload ok, a => ({ a with cur := 1, selFile := fun _ => false, selStr := fun _ => false }, .int (if ok then 0 else 1))
+  | .defSel _ _, a => (a, .int 0)
+  | .rerun, a => (a, .int 0)
+
+theorem getD_lookup_setAssoc {β} (m : List (Int × β)) (k : Int) (v d : β) :
+    (fun j => ((setAssoc m k v).lookup j).getD d) = upd (fun j => (m.lookup j).getD d) k v := by
+  funext j
+  by_cases h : j = k
+  · subst h; simp [upd, lookup_setAssoc]
+  · simp [upd, h, lookup_setAssoc_ne _ _ _ _ h]
+
+/-- **refinement, one call**: every store call on the model acts on the abstraction exactly as the specification says, and
+returns what the specification returns -/
+theorem call_refines (i : Inst) (c : Call) (h : c.isStore = true) :
+    (i.call c).1.abs = (specCall c i.abs).1 ∧ (i.call c).2 = (specCall c i.abs).2 := by
+  cases c with
+  | setSw s v => simp [Inst.call, specCall, Inst.abs, Inst.setSw]
+  | getSw s => simp [Inst.call, specCall, Inst.abs, Inst.getSw]
+  | setName n v =>
+    cases v with
+    | none => simp [Inst.call, specCall, Inst.abs, Inst.setName]
+    | some s => by_cases he : s.isEmpty <;> simp [Inst.call, specCall, Inst.abs, Inst.setName, he]
+  | getName n => simp [Inst.call, specCall, Inst.abs, Inst.getName]
+  | setCur n => by_cases hn : 0 ≤ n <;> simp [Inst.call, specCall, Inst.abs, Inst.setCur, hn]
+  | getCur => simp [Inst.call, specCall, Inst.abs]
+  | setSelFileOn v =>
+    by_cases hc : 0 ≤ i.cur
+    · simp [Inst.call, specCall, Inst.abs, Inst.setSelFileOn, hc, getD_lookup_setAssoc]
+    · simp [Inst.call, specCall, Inst.abs, Inst.setSelFileOn, hc]
+  | getSelFileOn => simp [Inst.call, specCall, Inst.abs, Inst.getSelFileOn]
+  | setSelStrOn v => simp [Inst.call, specCall, Inst.abs, Inst.setSelStrOn, getD_lookup_setAssoc]
+  | getSelStrOn => simp [Inst.call, specCall, Inst.abs, Inst.getSelStrOn]
+  | setSelName v =>
+    cases v with
+    | none => simp [Inst.call, specCall, Inst.abs, Inst.setSelName]
+    | some s => by_cases he : s.isEmpty <;> simp [Inst.call, specCall, Inst.abs, Inst.setSelName, he, getD_lookup_setAssoc]
+  | getSelName => simp [Inst.call, specCall, Inst.abs, Inst.getSelName]
+  | unload ok =>
+    simp only [Inst.call, specCall, Inst.abs, Inst.unload, and_true]
+    congr 1 <;> funext k <;> by_cases hk : k = 1 <;> simp [List.lookup_cons, hk] <;> split <;> simp_all
+  | defSel n f => simp [Call.isStore] at h
+  | rerun => simp [Call.isStore] at h
+
+def runCalls (i : Inst) : List Call → Inst × List Res
+  | [] => (i, [])
+  | c :: cs => let (j, r) := i.call c; let (k, rs) := runCalls j cs; (k, r :: rs)
+
+def runSpec (a : AStore) : List Call → AStore × List Res
+  | [] => (a, [])
+  | c :: cs => let (b, r) := specCall c a; let (d, rs) := runSpec b cs; (d, r :: rs)
+
+/-- **refinement, every call sequence**: the results of any sequence of store calls are those of the plain store -/
+theorem calls_refine (cs : List Call) (h : ∀ c ∈ cs, c.isStore = true) (i : Inst) :
+    (runCalls i cs).1.abs = (runSpec i.abs cs).1 ∧ (runCalls i cs).2 = (runSpec i.abs cs).2 := by
+  induction cs generalizing i with
+  | nil => simp [runCalls, runSpec]
+  | cons c cs ih =>
+    obtain ⟨h1, h2⟩ := call_refines i c (h c (by simp))
+    obtain ⟨h3, h4⟩ := ih (fun d hd => h d (by simp [hd])) (i.call c).1
+    simp only [runCalls, runSpec]
+    rw [← h1, ← h2]
+    exact ⟨h3, by rw [h4]⟩
+
+/-! ### the same at the level of the C API: several instances behind ids -/
+
+def absReg (r : Reg Inst) : Int → Option AStore := fun j => (r.lookup j).map Inst.abs
+
+/-- specification of a C call: an id without a store gets the invalid-instance result and nothing changes; otherwise
+only that id's store changes, as `specCall` says -/
+def specCapi (g : Int → Option AStore) (id : Int) (c : Call) : (Int → Option AStore) × Res :=
+  match g id with
+  | none => (g, badResult c)
+  | some a => ((fun j => if j = id then some (specCall c a).1 else g j), (specCall c a).2)
+
+theorem lookup_map_self {σ} (l : List (Nat × σ)) (b : Nat) (s s' : σ) (h : List.lookup b l = some s) :
+    List.lookup b (l.map (fun p => if p.1 = b then (p.1, s') else p)) = some s' := by
+  induction l with
+  | nil => simp at h
+  | cons p ps ih =>
+    obtain ⟨k, v⟩ := p
+    by_cases hk : k = b
+    · subst hk; simp [List.lookup_cons]
+    · have h1 : (b == k) = false := by simpa using (Ne.symm hk)
+      simp only [List.lookup_cons, h1] at h
+      simpa [List.lookup_cons, h1, hk] using ih h
+
+theorem capi_refines (r : Reg Inst) (id : Int) (c : Call) (h : c.isStore = true) :
+    absReg (capi r id c).1 = (specCapi (absReg r) id c).1 ∧ (capi r id c).2 = (specCapi (absReg r) id c).2 := by
+  cases hl : r.lookup id with
+  | none => simp [capi, Reg.apply, specCapi, absReg, hl]
+  | some s =>
+    obtain ⟨h1, h2⟩ := call_refines s c h
+    have hres : (capi r id c).2 = (s.call c).2 := by simp [capi, Reg.apply, hl]
+    refine ⟨?_, ?_⟩
+    · funext j
+      simp only [specCapi, absReg, hl, Option.map_some]
+      by_cases hj : j = id
+      · subst hj
+        have hid : ¬ j < 0 := by intro h0; simp [Reg.lookup, h0] at hl
+        have hl' : List.lookup j.toNat r.live = some s := by simpa [Reg.lookup, hid] using hl
+        simp only [capi, Reg.apply, Reg.lookup, hid, if_false, hl']
+        rw [lookup_map_self _ _ _ _ hl']
+        simp [h1]
+      · simp only [hj, if_false]
+        rw [capi, apply_other r id j _ _ hj]
+    · simp [specCapi, absReg, hl, hres, h2]
+
+
+theorem render_isEmpty (id : Nat) (x : SName) : (x.render id).isEmpty = x.isEmptyS := by
+  cases x with
+  | dflt n => cases n <;> simp [SName.render, SName.isEmptyS]
+  | dfltSel k => simp [SName.render, SName.isEmptyS, selName]
+  | user s => rfl
+
+theorem lookup_map_snd {α β} (m : List (Int × α)) (f : α → β) (k : Int) :
+    (m.map (fun p => (p.1, f p.2))).lookup k = (m.lookup k).map f := by
+  induction m with
+  | nil => rfl
+  | cons p ps ih =>
+    obtain ⟨a, b⟩ := p
+    by_cases h : k = a
+    · subst h; simp [List.lookup_cons]
+    · have h1 : (k == a) = false := by simpa using h
+      simpa [List.lookup_cons, h1] using ih
+
+theorem setAssoc_map {α β} (m : List (Int × α)) (f : α → β) (k : Int) (v : α) :
+    (setAssoc m k v).map (fun p => (p.1, f p.2)) = setAssoc (m.map (fun p => (p.1, f p.2))) k (f v) := by
+  simp [setAssoc, List.filter_map, Function.comp_def]
+
+theorem fresh_render (id : Nat) : fresh id = sfresh.render id := by
+  simp only [fresh, sfresh, SInst.render, List.map_cons, List.map_nil, SName.render]
+  congr 1
+  funext n; cases n <;> rfl
+
+theorem punchName_render (id : Nat) (s : SInst) (n : Int) :
+    (s.render id).punchName n = (s.punchName n).render id := by
+  have hmiss : (((s.render id).selFileName.lookup n).getD "").isEmpty =
+      (match s.selFileName.lookup n with | some x => x.isEmptyS | none => true) := by
+    simp only [SInst.render, lookup_map_snd]
+    cases s.selFileName.lookup n with
+    | none => simp
+    | some x => simp [render_isEmpty]
+  have he : (s.render id).engSel = s.engSel := rfl
+  simp only [Inst.punchName, SInst.punchName, hmiss, he]
+  cases punchChoice (s.engSel.lookup n).join (match s.selFileName.lookup n with | some x => x.isEmptyS | none => true) with
+  | file f => simp only [SInst.render]; rw [setAssoc_map s.selFileName (SName.render id) n (.user f)]; rfl
+  | dflt => simp only [SInst.render]; rw [setAssoc_map s.selFileName (SName.render id) n (.dfltSel n)]; rfl
+  | keep => rfl
+
+theorem foldl_punchName_render (id : Nat) (ks : List Int) (s : SInst) :
+    ks.foldl (fun j k => j.punchName k) (s.render id) = (ks.foldl (fun j k => j.punchName k) s).render id := by
+  induction ks generalizing s with
+  | nil => rfl
+  | cons k ks ih => simp only [List.foldl_cons, punchName_render, ih]
+
+/-- **one call**: running a call on the rendered state = rendering the result of the symbolic call, which never sees the id -/
+theorem call_render (id : Nat) (s : SInst) (c : Call) :
+    (s.render id).call c = (((s.call c).1).render id, ((s.call c).2).render id) := by
+  cases c with
+  | setSw w v => simp [Inst.call, SInst.call, SInst.render, Inst.setSw, SRes.render]
+  | getSw w => simp [Inst.call, SInst.call, SInst.render, Inst.getSw, SRes.render]
+  | setName n v =>
+    cases v with
+    | none => simp [Inst.call, SInst.call, SInst.render, Inst.setName, SRes.render]
+    | some x =>
+      by_cases he : x.isEmpty
+      · simp [Inst.call, SInst.call, SInst.render, Inst.setName, SRes.render, he]
+      · simp only [Inst.call, SInst.call, SInst.render, Inst.setName, SRes.render, he]
+        simp only [Bool.false_eq_true, if_false, Prod.mk.injEq, and_true]
+        congr 1
+        funext t; by_cases ht : t = n <;> simp [ht, SName.render]
+  | getName n => simp [Inst.call, SInst.call, SInst.render, Inst.getName, SRes.render]
+  | setCur n => by_cases hn : 0 ≤ n <;> simp [Inst.call, SInst.call, SInst.render, Inst.setCur, SRes.render, hn]
+  | getCur => simp [Inst.call, SInst.call, SInst.render, SRes.render]
+  | setSelFileOn v =>
+    by_cases hc : 0 ≤ s.cur <;> simp [Inst.call, SInst.call, SInst.render, Inst.setSelFileOn, SRes.render, hc]
+  | getSelFileOn => simp [Inst.call, SInst.call, SInst.render, Inst.getSelFileOn, SRes.render]
+  | setSelStrOn v => simp [Inst.call, SInst.call, SInst.render, Inst.setSelStrOn, SRes.render]
+  | getSelStrOn => simp [Inst.call, SInst.call, SInst.render, Inst.getSelStrOn, SRes.render]
+  | setSelName v =>
+    cases v with
+    | none => simp [Inst.call, SInst.call, SInst.render, Inst.setSelName, SRes.render]
+    | some x =>
+      by_cases he : x.isEmpty
+      · simp [Inst.call, SInst.call, SInst.render, Inst.setSelName, SRes.render, he]
+      · simp only [Inst.call, SInst.call, SInst.render, Inst.setSelName, SRes.render, he, Bool.false_eq_true, if_false]
+        rw [setAssoc_map s.selFileName (SName.render id) s.cur (.user x)]
+        rfl
+  | getSelName =>
+    simp only [Inst.call, SInst.call, SInst.render, Inst.getSelName, SRes.render, lookup_map_snd]
+    cases s.selFileName.lookup s.cur <;> simp [SName.render]
+  | unload ok => simp [Inst.call, SInst.call, SInst.render, Inst.unload, SRes.render]
+  | defSel n f =>
+    have h1 : (s.render id).loaded = s.loaded := rfl
+    have h2 : (s.render id).engSel = s.engSel := rfl
+    have h3 : (s.render id).selFileOn = s.selFileOn := rfl
+    have h4 : ∀ e, (s.render id).withEng e = (s.withEng e).render id := fun _ => rfl
+    by_cases hl : s.loaded
+    · simp only [Inst.call, Inst.defSel, SInst.call, h1, h2, h3, h4, hl, Bool.not_true, Bool.false_eq_true, if_false,
+        foldl_punchName_render, SRes.render]
+    · simp [Inst.call, Inst.defSel, SInst.call, h1, hl, SRes.render]
+  | rerun =>
+    have h1 : (s.render id).loaded = s.loaded := rfl
+    have h2 : (s.render id).engSel = s.engSel := rfl
+    have h3 : (s.render id).selFileOn = s.selFileOn := rfl
+    by_cases hl : s.loaded
+    · simp only [Inst.call, Inst.rerun, SInst.call, h1, h2, h3, hl, Bool.not_true, Bool.false_eq_true, if_false,
+        foldl_punchName_render, SRes.render]
+    · simp [Inst.call, Inst.rerun, SInst.call, h1, hl, SRes.render]
+
+def srunCalls (i : SInst) : List Call → SInst × List SRes
+  | [] => (i, [])
+  | c :: cs => let (j, r) := i.call c; let (k, rs) := srunCalls j cs; (k, r :: rs)
+
+theorem runCalls_render (id : Nat) (cs : List Call) (s : SInst) :
+    runCalls (s.render id) cs = (((srunCalls s cs).1).render id, (srunCalls s cs).2.map (SRes.render id)) := by
+  induction cs generalizing s with
+  | nil => rfl
+  | cons c cs ih => simp only [runCalls, srunCalls, call_render, ih, List.map_cons]
+
+/-- **results are a function of the call sequence alone, except id-derived default file names**: for every call sequence
+(setters, getters, loads, selected-output definitions, runs) the results on a fresh instance with id `id` are the rendering,
+with `id`, of results computed without any id. Hence the same sequence at two ids gives results that differ at most in the
+rendered default names. -/
+theorem results_depend_on_id_only_through_default_names (cs : List Call) (id : Nat) :
+    (runCalls (fresh id) cs).2 = (srunCalls sfresh cs).2.map (SRes.render id) := by
+  rw [fresh_render, runCalls_render]
+
+/-- integer results (switches, user numbers, result codes) do not depend on the id at all -/
+theorem int_results_id_independent (cs : List Call) (a b : Nat) (k : Nat) (v : Int)
+    (h : (runCalls (fresh a) cs).2[k]? = some (.int v)) : (runCalls (fresh b) cs).2[k]? = some (.int v) := by
+  rw [results_depend_on_id_only_through_default_names] at h ⊢
+  simp only [List.getElem?_map] at h ⊢
+  cases hx : (srunCalls sfresh cs).2[k]? with
+  | none => simp [hx] at h
+  | some x =>
+    cases x with
+    | int w => simp [hx, SRes.render] at h ⊢; exact h
+    | name n => simp [hx, SRes.render] at h
+
+
+/-! ### The model's invalid-instance results are the documented ones -/
+
+/-- the C function behind each call of the store interface -/
+def Call.cName : Call → String
+  | .setSw .outFile _ => "SetOutputFileOn" | .setSw .outStr _ => "SetOutputStringOn" | .setSw .errFile _ => "SetErrorFileOn"
+  | .setSw .errStr _ => "SetErrorStringOn" | .setSw .errOn _ => "SetErrorOn" | .setSw .logFile _ => "SetLogFileOn"
+  | .setSw .logStr _ => "SetLogStringOn" | .setSw .dumpFile _ => "SetDumpFileOn" | .setSw .dumpStr _ => "SetDumpStringOn"
+  | .getSw .outFile => "GetOutputFileOn" | .getSw .outStr => "GetOutputStringOn" | .getSw .errFile => "GetErrorFileOn"
+  | .getSw .errStr => "GetErrorStringOn" | .getSw .errOn => "GetErrorOn" | .getSw .logFile => "GetLogFileOn"
+  | .getSw .logStr => "GetLogStringOn" | .getSw .dumpFile => "GetDumpFileOn" | .getSw .dumpStr => "GetDumpStringOn"
+  | .setName .out _ => "SetOutputFileName" | .setName .err _ => "SetErrorFileName" | .setName .log _ => "SetLogFileName"
+  | .setName .dump _ => "SetDumpFileName"
+  | .getName .out => "GetOutputFileName" | .getName .err => "GetErrorFileName" | .getName .log => "GetLogFileName"
+  | .getName .dump => "GetDumpFileName"
+  | .setCur _ => "SetCurrentSelectedOutputUserNumber" | .getCur => "GetCurrentSelectedOutputUserNumber"
+  | .setSelFileOn _ => "SetSelectedOutputFileOn" | .getSelFileOn => "GetSelectedOutputFileOn"
+  | .setSelStrOn _ => "SetSelectedOutputStringOn" | .getSelStrOn => "GetSelectedOutputStringOn"
+  | .setSelName _ => "SetSelectedOutputFileName" | .getSelName => "GetSelectedOutputFileName"
+  | .unload _ => "LoadDatabase" | .defSel _ _ => "RunString" | .rerun => "RunString"
+
+/-- what a documentation class means as a result value -/
+def docResult (name : String) : PhreeqcVerif.Api.BadDoc → Option Res
+  | .code | .negative | .silentCode => some (.int (-6))
+  | .silentZero => some (.int 0)
+  | .silentEmpty => some (.str "")
+  | .silentMsg => some (.str (PhreeqcVerif.Api.invalidMsg name))
+  | .silentVoid | .noId => none
+
+/-- the invalid-instance result the model returns for each call is the entry of the documentation table for its C function
+(so `capi_dead` speaks about the documented results) -/
+theorem badResult_matches_doc (c : Call) :
+    (PhreeqcVerif.Api.specOf c.cName).bind (docResult c.cName) = some (badResult c) := by
+  cases c with
+  | setSw s v => cases s <;> (simp only [Call.cName, badResult]; decide)
+  | getSw s => cases s <;> (simp only [Call.cName, badResult]; decide)
+  | setName n v => cases n <;> (simp only [Call.cName, badResult]; decide)
+  | getName n => cases n <;> (simp only [Call.cName, badResult]; decide)
+  | setCur n => simp only [Call.cName, badResult]; decide
+  | getCur => simp only [Call.cName, badResult]; decide
+  | setSelFileOn v => simp only [Call.cName, badResult]; decide
+  | getSelFileOn => simp only [Call.cName, badResult]; decide
+  | setSelStrOn v => simp only [Call.cName, badResult]; decide
+  | getSelStrOn => simp only [Call.cName, badResult]; decide
+  | setSelName v => simp only [Call.cName, badResult]; decide
+  | getSelName => simp only [Call.cName, badResult]; decide
+  | unload ok => simp only [Call.cName, badResult]; decide
+  | defSel n f => simp only [Call.cName, badResult]; decide
+  | rerun => simp only [Call.cName, badResult]; decide
+
+/-- non-vacuity of the refinement and of the id theorem on one history: switches, names, user numbers, a load, selected-output
+definitions with and without `-file` -/
+example :
+    let cs : List Call := [.setSw .outFile true, .setName .out (some "a.out"), .setName .err (some ""), .setCur 5, .setSelFileOn true,
+      .setCur (-2), .getCur, .getSelFileOn, .setCur 1, .getSelFileOn, .getName .out, .getName .err, .unload true, .defSel 5 none,
+      .setCur 5, .getSelName, .defSel 2 (some "u.sel"), .setCur 2, .getSelName, .getSelFileOn]
+    (runCalls (fresh 3) cs).2 = [.int 0, .int 0, .int 0, .int 0, .int 0, .int (-3), .int 5, .int 1, .int 0, .int 0, .str "a.out",
+      .str "phreeqc.3.err", .int 0, .int 0, .int 0, .str "selected_5.3.out", .int 0, .int 0, .str "u.sel", .int 0] ∧
+    (runCalls (fresh 8) cs).2[15]? = some (.str "selected_5.8.out") ∧
+    (runSpec (fresh 3).abs (cs.take 12)).2 = (runCalls (fresh 3) (cs.take 12)).2 := by decide
 
 end PhreeqcVerif.Settings
